@@ -28,6 +28,8 @@ use redis_sim::redis::SDS;
 use redis_sim::replication::lattice::ReplicaId;
 use redis_sim::replication::state::{ReplicatedValue, ReplicationDelta, ShardReplicaState};
 use redis_sim::replication::ConsistencyLevel;
+use redis_sim::streaming::integration::StreamingIntegration;
+use redis_sim::streaming::StreamingConfig;
 use redis_sim::streaming::{
     CompactionConfig, CompactionError, Compactor, ListResult, Manifest, ManifestManager, ObjectMeta, ObjectStore, RecoveryManager,
     SegmentReader, StreamingPersistence, WriteBufferConfig,
@@ -172,6 +174,52 @@ struct Inner {
     garble_notes: Vec<String>,
     undetected: Option<String>,
 }
+const DAMAGE_MODES: [&str; 6] = ["one bit flipped", "two bits flipped (header + data)", "16 bytes zero-filled", "a structural header field set to 0xFF", "a header byte +1", "footer zero-filled"];
+/// structure-aware damage of a segment image (64-byte header, records, 24-byte footer); returns the
+/// first damaged position
+fn damage(buf: &mut Vec<u8>, draw: usize) -> usize {
+    let len = buf.len();
+    let pos = draw.wrapping_mul(2654435761) % len;
+    match (draw / 8) % DAMAGE_MODES.len() {
+        0 => {
+            buf[pos] ^= 1u8 << (draw % 8);
+            pos
+        }
+        1 => {
+            let h = pos % 64.min(len);
+            buf[h] ^= 1u8 << (draw % 8);
+            let d = if len > 90 { 64 + pos % (len - 88) } else { pos };
+            buf[d] ^= 0x10;
+            h
+        }
+        2 => {
+            for b in buf.iter_mut().skip(pos).take(16) {
+                *b = 0;
+            }
+            pos
+        }
+        3 => {
+            // record count / min / max / checksum fields live in bytes 8..36 of the header
+            let f = 8 + (draw % 7) * 4;
+            for b in buf.iter_mut().skip(f).take(4) {
+                *b = 0xFF;
+            }
+            f
+        }
+        4 => {
+            let h = pos % 40.min(len);
+            buf[h] = buf[h].wrapping_add(1);
+            h
+        }
+        _ => {
+            let f = len.saturating_sub(24);
+            for b in buf.iter_mut().skip(f) {
+                *b = 0;
+            }
+            f
+        }
+    }
+}
 fn decode_seg(d: &[u8]) -> Option<Vec<ReplicationDelta>> {
     let rd = SegmentReader::open(d).ok()?;
     rd.validate().ok()?;
@@ -269,14 +317,13 @@ impl ObjectStore for ScriptedStore {
                 Some(Fault::ErrTorn(cut)) if matches!(Name::of(key), Name::Seg(_)) && g.map.get(key).map_or(false, |d| !d.is_empty()) => {
                     let mut buf = g.map.get(key).map(|d| d.as_ref().clone()).unwrap_or_default();
                     let clean = decode_seg(&buf);
-                    let pos = (cut.wrapping_mul(2654435761)) % buf.len();
-                    buf[pos] ^= 1u8 << (cut % 8);
+                    let pos = damage(&mut buf, cut);
                     let seen = decode_seg(&buf);
                     let same = match (&clean, &seen) {
                         (Some(a), Some(b)) => a.len() == b.len() && a.iter().zip(b.iter()).all(|(x, y)| x.key == y.key && x.source_replica == y.source_replica && obs(&x.value) == obs(&y.value)),
                         _ => false,
                     };
-                    let what = format!("get of {}: bit {} of byte {} of {} flipped in the returned buffer, object at rest intact", key, cut % 8, pos, buf.len());
+                    let what = format!("get of {}: damage mode {} at byte {} of {} in the returned buffer, object at rest intact", key, DAMAGE_MODES[(cut / 8) % DAMAGE_MODES.len()], pos, buf.len());
                     if seen.is_none() {
                         g.garble_notes.push(format!("{}: rejected", what));
                         (Outc::GB, Ok(buf))
@@ -538,6 +585,155 @@ struct RunOut {
     tracker_mismatch: Option<String>,
 }
 
+/// the worker path (lesson 1): start_workers -> DeltaSinkSender -> bridge -> PersistenceActor
+fn run_workers(rt: &tokio::runtime::Runtime, seed: u64, i: u64, verbose: bool, out: &mut Out) {
+    let mut rng = case_rng(seed ^ 0x12C0_AC7, i);
+    let n = [1usize, 99, 100, 101, 199, 200, 201, 350][((i / M / 4) as usize) % 8];
+    let mut reps: Vec<ShardReplicaState> = (1..=3u64).map(|r| ShardReplicaState::new(ReplicaId(r), ConsistencyLevel::Eventual)).collect();
+    reps[1].lamport_clock.time = 700;
+    let deltas: Vec<ReplicationDelta> = (0..n)
+        .map(|_| {
+            let k = rng.gen_range(0..40);
+            let r = rng.gen_range(0..3usize);
+            if k % 5 == 0 {
+                reps[r].record_hash_write(format!("h{}", k), vec![(format!("f{}", r), SDS::new(b"v".to_vec()))])
+            } else {
+                reps[r].record_write(format!("k{}", k), SDS::new(vec![b'a'; rng.gen_range(0..20)]), None)
+            }
+        })
+        .collect();
+    let store = ScriptedStore::healthy(Map::new());
+    let mut cfg = StreamingConfig::test();
+    cfg.prefix = PREFIX.to_string();
+    let pause_mid = rng.gen_bool(0.5);
+    let problem: Option<String> = rt.block_on(async {
+        let integ = StreamingIntegration::with_store(Arc::new(store.clone()), cfg, 1);
+        let (handles, sender) = match integ.start_workers().await {
+            Ok(x) => x,
+            Err(e) => return Some(format!("start_workers failed on a healthy store: {}", e)),
+        };
+        for (j, d) in deltas.iter().enumerate() {
+            if sender.send(d.clone()).is_err() {
+                return Some(format!("the delta sink refused delta {} of {}", j, n));
+            }
+            if pause_mid && j == n / 2 {
+                // let the bridge drain and a periodic tick fire (flush_interval 50 ms)
+                tokio::time::sleep(Duration::from_millis(120)).await;
+            }
+        }
+        tokio::time::sleep(Duration::from_millis(40)).await;
+        handles.shutdown().await;
+        None
+    });
+    let fin = analyse(rt, store.snapshots().last().unwrap());
+    let mut problem = problem;
+    if problem.is_none() {
+        match &fin.rec {
+            Err(e) => problem = Some(format!("recovery fails after the graceful shutdown: {}", e)),
+            Ok(_) => {
+                if let Some(p) = &fin.manifest_problem {
+                    problem = Some(format!("manifest problem after the graceful shutdown: {}", p));
+                }
+                for d in &deltas {
+                    let absorbed = fin.state.get(&d.key).map_or(false, |v| obs(&v.merge(&d.value)) == obs(v));
+                    if !absorbed {
+                        problem = Some(format!("{} was sent to the delta sink before a graceful shutdown on a healthy store and is not recovered", delta_text(d)));
+                        break;
+                    }
+                }
+            }
+        }
+    }
+    out.impl_checks += 1;
+    out.count(&format!("worker-path:{}-deltas", n));
+    if verbose {
+        println!("worker path {}: {} deltas (pause in the middle: {}), {} store calls: {}", i, n, pause_mid, store.calls(), problem.clone().unwrap_or_else(|| "ok".into()));
+    }
+    if let Some(p) = problem {
+        out.count("violation:worker path");
+        out.violation(i, "deltas handed to the persistence workers before a graceful shutdown on a healthy store are not all recovered", json!({"deltas": n, "pause_in_the_middle": pause_mid, "problem": p, "store_calls": log_term(&store.log())}));
+    }
+}
+/// size-boundary run on a healthy store (lesson 2)
+fn run_big(rt: &tokio::runtime::Runtime, seed: u64, i: u64, thorough: bool, verbose: bool, out: &mut Out) {
+    let mut rng = case_rng(seed ^ 0x12C0_B16, i);
+    let sizes: &[usize] = &[4095, 4096, 4097, 10_000];
+    let idx = (i / M / 4) as usize;
+    // thorough: every 40th size-boundary run flushes 100 000 deltas
+    let n = if thorough && idx % 40 == 7 { 100_000 } else { sizes[idx % sizes.len()] };
+    let mut huge_left = 4usize;
+    let max_val: usize = if thorough { 1 << 20 } else { 64 << 10 };
+    let mut reps: Vec<ShardReplicaState> = (1..=3u64).map(|r| ShardReplicaState::new(ReplicaId(r), ConsistencyLevel::Eventual)).collect();
+    reps[1].lamport_clock.time = 1 << 40;
+    reps[2].lamport_clock.time = (1u64 << 63) + 5;
+    let nkeys = rng.gen_range(50..2000usize);
+    let mut mk = |rng: &mut Rng, reps: &mut Vec<ShardReplicaState>| -> ReplicationDelta {
+        let k = rng.gen_range(0..nkeys);
+        let r = rng.gen_range(0..3usize);
+        let key = if k % 17 == 0 { format!("k{}-{}", k, "x".repeat(300)) } else { format!("k{}", k) };
+        if k % 5 == 0 {
+            reps[r].record_hash_write(format!("h{}", key), vec![(format!("f{}", rng.gen_range(0..4)), SDS::new(vec![7u8; rng.gen_range(0..40)]))])
+        } else {
+            let mut len = match rng.gen_range(0..200) { 0 => max_val, 1 => 65_536, 2 => 65_535, 3 => 1024, 4 => 0, _ => rng.gen_range(0..32) };
+            if len >= 65_535 {
+                if huge_left == 0 { len = 1024; } else { huge_left -= 1; }
+            }
+            reps[r].record_write(key, SDS::new(vec![b'v'; len]), if rng.gen_bool(0.1) { Some(5000) } else { None })
+        }
+    };
+    let first: Vec<ReplicationDelta> = (0..n).map(|_| mk(&mut rng, &mut reps)).collect();
+    let second: Vec<ReplicationDelta> = (0..rng.gen_range(1..4)).map(|_| mk(&mut rng, &mut reps)).collect();
+    let store = ScriptedStore::healthy(Map::new());
+    let cfg = WriteBufferConfig { backpressure_threshold_bytes: usize::MAX / 2, compression_enabled: false, ..WriteBufferConfig::default() };
+    let mut sp = rt.block_on(StreamingPersistence::new(Arc::new(store.clone()), PREFIX.to_string(), 1, cfg)).expect("constructor");
+    let mut problem: Option<String> = None;
+    for (round, ds) in [&first, &second].iter().enumerate() {
+        for d in ds.iter() {
+            if sp.push(d.clone()).is_err() {
+                problem = Some("push rejected below the backpressure threshold".into());
+            }
+        }
+        match rt.block_on(sp.flush()) {
+            Ok(fr) => {
+                if fr.deltas_flushed != ds.len() || sp.pending_count() != 0 || fr.segment.as_ref().map(|s| s.record_count as usize) != Some(ds.len()) {
+                    problem = Some(format!("flush {} of {} deltas reports deltas_flushed {} / record_count {:?} / pending {}", round, ds.len(), fr.deltas_flushed, fr.segment.as_ref().map(|s| s.record_count), sp.pending_count()));
+                }
+            }
+            Err(e) => problem = Some(format!("flush {} of {} deltas failed on a healthy store: {}", round, ds.len(), e)),
+        }
+    }
+    let truth = |ds: &mut Vec<ReplicationDelta>| -> BTreeMap<String, String> {
+        ds.sort_by(|x, y| (y.value.timestamp.time, y.value.timestamp.replica_id.0).cmp(&(x.value.timestamp.time, x.value.timestamp.replica_id.0)));
+        let mut st: BTreeMap<String, ReplicatedValue> = BTreeMap::new();
+        for d in ds.iter() {
+            let nv = match st.get(&d.key) { Some(s) => s.merge(&d.value), None => d.value.clone() };
+            st.insert(d.key.clone(), nv);
+        }
+        st.iter().map(|(k, v)| (k.clone(), obs(v))).collect()
+    };
+    let mut all: Vec<ReplicationDelta> = first.iter().chain(second.iter()).cloned().collect();
+    let want = truth(&mut all);
+    let before = analyse(rt, store.snapshots().last().unwrap());
+    if problem.is_none() && (before.rec.is_err() || before.state_obs != want) {
+        problem = Some(format!("after the two flushes recovery gives {} keys (error {:?}), persisted {} keys", before.state_obs.len(), before.rec.as_ref().err(), want.len()));
+    }
+    let cc = CompactionConfig { target_segment_size: usize::MAX / 2, max_segments: 100, min_segments_to_compact: 2, max_segments_per_compaction: 5, tombstone_ttl: Duration::from_millis(1000), compression_enabled: false };
+    let mut comp = Compactor::with_time_source(Arc::new(store.clone()), PREFIX.to_string(), ManifestManager::new(store.clone(), PREFIX), cc, FixedTime(Arc::new(AtomicU64::new(0))));
+    let cr = rt.block_on(comp.compact());
+    let after = analyse(rt, store.snapshots().last().unwrap());
+    if problem.is_none() && (cr.is_err() || after.rec.is_err() || after.state_obs != want || after.manifest_problem.is_some()) {
+        problem = Some(format!("after the compaction ({}) recovery gives {} keys (error {:?}, manifest problem {:?}), persisted {} keys", if cr.is_ok() { "Ok" } else { "Err" }, after.state_obs.len(), after.rec.as_ref().err(), after.manifest_problem, want.len()));
+    }
+    out.impl_checks += 4;
+    out.count(&format!("size-boundary-run:{}-deltas", n));
+    if verbose {
+        println!("size-boundary run {}: {} + {} deltas over {} keys: {}", i, n, second.len(), nkeys, problem.clone().unwrap_or_else(|| "ok".into()));
+    }
+    if let Some(p) = problem {
+        out.count("violation:size-boundary run");
+        out.violation(i, "a large flush / compaction does not preserve what was confirmed", json!({"deltas": n, "keys": nkeys, "problem": p}));
+    }
+}
 fn run_workload(rt: &tokio::runtime::Runtime, wl: &Workload, script: HashMap<usize, Fault>, store: &ScriptedStore, ro: &mut RunOut) {
     let cfg = WriteBufferConfig { backpressure_threshold_bytes: wl.thr, compression_enabled: false, ..WriteBufferConfig::default() };
     let mut sp = rt
@@ -727,8 +923,32 @@ fn main() {
     std::panic::set_hook(Box::new(|_| {}));
     let rt = tokio::runtime::Builder::new_current_thread().enable_all().build().unwrap();
     let range: Vec<u64> = match args.only { Some(i) => vec![i], None => (0..args.n).collect() };
+    let big = args.get("big", 0);
     for i in range {
         let p = i % M;
+        // placement 64 of every 4th workload is a size-boundary run instead (oracle only, no Coq
+        // case): one flush of 4095 / 4096 / 4097 / 10 000 (thorough: 100 000) deltas with long keys
+        // and values up to 64 KiB (thorough: 1 MiB), a second small flush, a compaction, recovery
+        if p == 64 && (i / M) % 4 == 3 {
+            let r = catch_unwind(AssertUnwindSafe(|| run_big(&rt, args.seed, i, big != 0, verbose, &mut out)));
+            if r.is_err() {
+                out.count("violation:the implementation panicked");
+                out.violation(i, "the implementation panicked", json!({"case": i, "kind": "size-boundary run"}));
+            }
+            continue;
+        }
+        // placement 65 of every 4th workload drives the worker path instead (oracle only): the
+        // deltas go through StreamingIntegration::start_workers' delta sink -> bridge ->
+        // PersistenceActor (push, should_flush at max_deltas = 100, periodic tick, final flush at
+        // shutdown) on a healthy store; after the graceful shutdown everything sent must be recovered
+        if p == 65 && (i / M) % 4 == 3 {
+            let r = catch_unwind(AssertUnwindSafe(|| run_workers(&rt, args.seed, i, verbose, &mut out)));
+            if r.is_err() {
+                out.count("violation:the implementation panicked");
+                out.violation(i, "the implementation panicked", json!({"case": i, "kind": "worker path"}));
+            }
+            continue;
+        }
         let mut wrng = case_rng(args.seed, (i / M) * M);
         let mut prng = case_rng(args.seed, i);
         let wl = gen_workload(&mut wrng, rich);
@@ -1023,6 +1243,62 @@ fn main() {
             out.violation(i, V_LOST, base(json!({"first": f, "all_failing_instants": bad_c, "failed_segment_gets_in_earlier_ok_compactions": failed_get})));
         }
 
+        // ---- oracle (g): a second incarnation started on a crash image of the first
+        // (new StreamingPersistence + Compactor on the image at a random crash instant j, healthy
+        // store): two more deltas are flushed, then a compaction runs; everything the first
+        // incarnation had confirmed by j and everything the second confirmed must be recovered
+        if total > 0 && !panicked {
+            let j = prng.gen_range(0..=total);
+            let st2 = ScriptedStore::healthy(snaps[j].clone());
+            let cfg2 = WriteBufferConfig { backpressure_threshold_bytes: 1 << 20, compression_enabled: false, ..WriteBufferConfig::default() };
+            let conf1: Vec<&ReplicationDelta> = ro.confirmed.iter().filter(|(at, _)| *at <= j).map(|(_, d)| d).collect();
+            let mut conf2: Vec<ReplicationDelta> = Vec::new();
+            let mut what: Option<String> = None;
+            match rt.block_on(StreamingPersistence::new(Arc::new(st2.clone()), PREFIX.to_string(), 1, cfg2)) {
+                Err(e) => what = Some(format!("a new StreamingPersistence cannot start on the crash image: {}", e)),
+                Ok(mut sp2) => {
+                    // re-issue two deltas of the workload under fresh (later) stamps
+                    let pool: Vec<&ReplicationDelta> = wl.ops.iter().filter_map(|o| if let Op::Push(d) = o { Some(d) } else { None }).collect();
+                    for (n, d) in pool.iter().rev().take(2).enumerate() {
+                        let mut d2 = (*d).clone();
+                        d2.value.timestamp.time = d2.value.timestamp.time.saturating_add(1_000_000 + n as u64);
+                        if sp2.push(d2.clone()).is_ok() {
+                            conf2.push(d2);
+                        }
+                    }
+                    match rt.block_on(sp2.flush()) {
+                        Err(e) => what = Some(format!("flush of the second incarnation failed on a healthy store: {}", e)),
+                        Ok(_) => {
+                            let cc2 = CompactionConfig { target_segment_size: 1 << 30, max_segments: 100, min_segments_to_compact: 2, max_segments_per_compaction: 5, tombstone_ttl: Duration::from_millis(1000), compression_enabled: false };
+                            let mut comp2 = Compactor::with_time_source(Arc::new(st2.clone()), PREFIX.to_string(), ManifestManager::new(st2.clone(), PREFIX), cc2, FixedTime(Arc::new(AtomicU64::new(0))));
+                            let _ = rt.block_on(comp2.compact());
+                        }
+                    }
+                }
+            }
+            out.impl_checks += 1;
+            if what.is_none() {
+                let fin = analyse(&rt, st2.snapshots().last().unwrap());
+                match &fin.rec {
+                    Err(e) => what = Some(format!("recovery fails after the second incarnation: {}", e)),
+                    Ok(_) => {
+                        for d in conf1.iter().map(|d| (*d).clone()).chain(conf2.iter().cloned()) {
+                            let absorbed = fin.state.get(&d.key).map_or(false, |v| obs(&v.merge(&d.value)) == obs(v));
+                            if !absorbed {
+                                what = Some(format!("{} confirmed by the {} incarnation is not recovered", delta_text(&d), if conf2.iter().any(|x| obs(&x.value) == obs(&d.value) && x.key == d.key) { "second" } else { "first" }));
+                                break;
+                            }
+                        }
+                    }
+                }
+            }
+            out.count(if what.is_none() { "second-incarnation:ok" } else { "second-incarnation:failed" });
+            if let Some(w) = what {
+                out.count("violation:second incarnation");
+                out.violation(i, "a second incarnation started on a crash image loses confirmed deltas or cannot run", base(json!({"crash_instant": j, "what": w})));
+            }
+        }
+
         // ---- the Coq case
         let mut sample_js: BTreeSet<usize> = BTreeSet::new();
         sample_js.insert(total);
@@ -1038,7 +1314,11 @@ fn main() {
                 Err(_) => format!("({}, None)", j),
             }
         });
-        let term = format!("(K12 {} (CCfg {} {} {} 1000) {} {} {} {})", wl.thr, wl.cc_target, wl.cc_min, wl.cc_maxper, ops_t, log_t, res_t, samples_t);
+        let final_t = match snaps.last().and_then(|m| m.get(&format!("{}/manifest.json", PREFIX))).and_then(|d| serde_json::from_slice::<Manifest>(d).ok()) {
+            None => "None".to_string(),
+            Some(m) => format!("(Some ({}, {}, {}, {}))", m.version, m.replica_id, clist(m.segments.iter(), |s| format!("({}, {}, {}, {}, {})", s.id, s.record_count, s.size_bytes, s.min_timestamp, s.max_timestamp)), m.next_segment_id),
+        };
+        let term = format!("(K12 {} (CCfg {} {} {} 1000) {} {} {} {} {})", wl.thr, wl.cc_target, wl.cc_min, wl.cc_maxper, ops_t, log_t, res_t, samples_t, final_t);
         let flush_ok = ro.results.iter().any(|r| matches!(r, Res::Flush(Some(n), _) if *n > 0));
         let compact_ok = ro.results.iter().any(|r| matches!(r, Res::Compact(CRes::Ok(..))));
         let nontrivial = flush_ok && (fired > 0 || compact_ok);
@@ -1047,7 +1327,7 @@ fn main() {
         out.sample(json!({"case": i, "placement": p, "script": script_t, "ops": ops_t, "log": log_t, "results": res_t}));
         if verbose {
             println!("sampled crash instants in the Coq case: {:?}", sample_js);
-            println!("Coq case:\n{}", format!("(K12 {} (CCfg {} {} {} 1000)\n  {}\n  {}\n  {}\n  {})", wl.thr, wl.cc_target, wl.cc_min, wl.cc_maxper, ops_t, log_t, res_t, samples_t));
+            println!("Coq case:\n{}", format!("(K12 {} (CCfg {} {} {} 1000)\n  {}\n  {}\n  {}\n  {}\n  {})", wl.thr, wl.cc_target, wl.cc_min, wl.cc_maxper, ops_t, log_t, res_t, samples_t, final_t));
         }
     }
     out.finish(args.seed);
